@@ -82,6 +82,9 @@ func genC03(r *Rand, tier string, ord int) *Trial {
 			if r.P(0.2) {
 				n, t.Kind = r.Range(300, 600), "generated-many-hundreds"
 			}
+			if r.P(0.04) { // more records than any plausible fixed-size queue between the stages
+				n, w, t.Kind = r.Range(1100, 1500), r.Range(2, 5), "generated-many-thousand"
+			}
 		}
 		ref = genRefSeq(r, w)
 		if r.P(0.3) {
@@ -101,6 +104,13 @@ func genC03(r *Rand, tier string, ord int) *Trial {
 		if r.P(0.5) {
 			t.Runs[0].Strat = simrt.Strategy{Kind: simrt.StratPCT, Depth: r.Range(1, 3), Horizon: 5 * n, SelectRand: true}
 			t.Runs[0].NumCPU = r.PickInt(2, 3, 4, 8)
+		}
+		if t.Kind == "generated-many-thousand" {
+			// a slow output: one run each with the reader, the writer and the first worker starved
+			for i := range t.Runs {
+				t.Runs[i].Strat = simrt.Strategy{Kind: simrt.StratStarve, SwitchP: 0.3, StarveMask: 1 << uint(i+1), SelectRand: true}
+				t.Runs[i].Chunk = 0
+			}
 		}
 	}
 	return t
